@@ -43,15 +43,25 @@ Apply(e, m) ==
                             ELSE CASE e.act = "write"  -> [m |-> [m EXCEPT ![e.k] = e.v], rv |-> e.v, rok |-> 1, ok |-> TRUE]
                                    [] e.act = "inv"    -> [m |-> [m EXCEPT ![e.k] = NIL], rv |-> NIL, rok |-> 0, ok |-> TRUE]
                                    [] OTHER            -> [m |-> m, rv |-> cur, rok |-> IF cur = NIL THEN 0 ELSE 1, ok |-> TRUE]
-         [] e.op = "ldget" -> \* loader-backed Get: a hit, or a miss whose load result is returned (installed at a second point)
-                            IF e.hit = 1 THEN [m |-> m, rv |-> cur, rok |-> IF cur = NIL THEN 0 ELSE 1, ok |-> cur # NIL]
-                            ELSE [m |-> m, rv |-> e.v, rok |-> 1, ok |-> cur = NIL]
+         [] e.op = "cia" -> \* ComputeIfAbsent: an existing value is returned untouched, otherwise the callback runs once
+                            IF cur # NIL THEN [m |-> m, rv |-> cur, rok |-> 1, ok |-> e.nc = 0 \/ e.act = "found"]
+                            ELSE IF e.act = "write" THEN [m |-> [m EXCEPT ![e.k] = e.v], rv |-> e.v, rok |-> 1, ok |-> e.nc = 1]
+                            ELSE [m |-> m, rv |-> NIL, rok |-> 0, ok |-> e.nc = 1]
+         [] e.op = "cip" -> \* ComputeIfPresent
+                            IF cur = NIL THEN [m |-> m, rv |-> NIL, rok |-> 0, ok |-> e.nc = 0]
+                            ELSE IF e.nc # 1 \/ e.saw # cur THEN [m |-> m, rv |-> NIL, rok |-> 0, ok |-> FALSE]
+                            ELSE CASE e.act = "write" -> [m |-> [m EXCEPT ![e.k] = e.v], rv |-> e.v, rok |-> 1, ok |-> TRUE]
+                                   [] e.act = "inv"   -> [m |-> [m EXCEPT ![e.k] = NIL], rv |-> NIL, rok |-> 0, ok |-> TRUE]
+                                   [] OTHER           -> [m |-> m, rv |-> cur, rok |-> 1, ok |-> TRUE]
+         [] e.op = "ldget" -> \* loader-backed Get: a hit, or a miss that returns a loaded value (installed at a second point)
+                            IF cur # NIL THEN [m |-> m, rv |-> cur, rok |-> 1, ok |-> TRUE]
+                            ELSE [m |-> m, rv |-> e.rv, rok |-> 1, ok |-> e.hit = 0]
          [] OTHER -> [m |-> m, rv |-> NIL, rok |-> 0, ok |-> TRUE]
 
 More == l <= Len(Trace)
 Call == /\ More /\ Trace[l].t = "call"
         /\ pend[Trace[l].c] = None
-        /\ pend' = [pend EXCEPT ![Trace[l].c] = [op |-> Trace[l].op, lin |-> FALSE, rv |-> NIL, rok |-> 0, inst |-> FALSE, ri |-> Trace[l].ri]]
+        /\ pend' = [pend EXCEPT ![Trace[l].c] = [op |-> Trace[l].op, lin |-> FALSE, rv |-> NIL, rok |-> 0, inst |-> FALSE, miss |-> FALSE, ri |-> Trace[l].ri]]
         /\ l' = l + 1 /\ UNCHANGED map
 
 \* the return record carries what the callback saw / did, so the operation is applied with the return's fields;
@@ -61,14 +71,13 @@ Lin(c) == /\ More /\ Trace[l].t # "call"
           /\ LET a == Apply(Trace[pend[c].ri], map)
              IN /\ a.ok
                 /\ map' = a.m
-                /\ pend' = [pend EXCEPT ![c].lin = TRUE, ![c].rv = a.rv, ![c].rok = a.rok]
+                /\ pend' = [pend EXCEPT ![c].lin = TRUE, ![c].rv = a.rv, ![c].rok = a.rok, ![c].miss = (map[Trace[pend[c].ri].k] = NIL)]
           /\ UNCHANGED l
 
 \* second linearisation point of a loader-backed Get that missed: the loaded value is installed unless it was superseded
 Install(c) == /\ More /\ Trace[l].t # "call"
-              /\ pend[c] # None /\ pend[c].lin /\ pend[c].op = "ldget" /\ ~pend[c].inst
-              /\ Trace[pend[c].ri].hit = 0
-              /\ map' = [map EXCEPT ![Trace[pend[c].ri].k] = Trace[pend[c].ri].v]
+              /\ pend[c] # None /\ pend[c].lin /\ pend[c].op = "ldget" /\ ~pend[c].inst /\ pend[c].miss
+              /\ map' = [map EXCEPT ![Trace[pend[c].ri].k] = Trace[pend[c].ri].rv]
               /\ pend' = [pend EXCEPT ![c].inst = TRUE]
               /\ UNCHANGED l
 
